@@ -260,6 +260,15 @@ Definition do_set (w : ws) (e : key) (g : attrs -> attrs) (wr : key -> attrs -> 
       ({| wmem := upd e (set_attrs a) (wmem w); wfile := wr e a (wfile w); wpend := wpend w |}, Done)
   end.
 
+(* memory effect of a completed removal of x: its parent forgets it in its property groups, the subtree goes *)
+Definition scrub_attrs (c : key) (t : tree) : tree := let 'Node k a l := t in Node k (with_pgs a (scrub c (apgs a))) l.
+Definition forget (x : key) (m : tree) : tree :=
+  let m1 := match fst x, parent_of x m with
+            | KD, Some p => upd p (scrub_attrs x) m
+            | _, _ => m
+            end in
+  prune x m1.
+
 (* --- move --- *)
 (* save_entity(e) after the move re-visits the whole subtree: write_entity (no-op for stored nodes, creates missing
    ones), then links each child under its parent when the link is absent *)
@@ -273,10 +282,14 @@ Fixpoint save_tree (p : key) (t : tree) (f : file) : file :=
 Definition do_move (w : ws) (e q : key) : ws * outcome :=
   match find e (wmem w), find q (wmem w), parent_of e (wmem w) with
   | Some te, Some _, Some p =>
-      if negb (can_hold (fst q) (fst e)) || mem_key q (keys_of te) || key_eqb p q then (w, Refused)
+      if negb (can_hold (fst q) (fst e)) || mem_key q (keys_of te) then (w, Refused)
+      else if key_eqb p q then (w, Done)   (* assigning the current parent again changes nothing *)
       else
-        let m1 := upd q (add_kid te) (prune e (wmem w)) in
-        let f1 := w_unlink p e (wfile w) in
+        (* the parent setter calls current_parent.remove_children([self]): a data child is scrubbed from the old parent's
+           property groups exactly as in a removal through the parent *)
+        let ppgs := match find p (wmem w) with Some tp => apgs (tattrs tp) | None => [] end in
+        let m1 := upd q (add_kid te) (forget e (wmem w)) in
+        let f1 := w_unlink p e (match fst e with KD => w_scrub p e ppgs (wfile w) | _ => wfile w end) in
         let f2 := save_tree q te f1 in
         ({| wmem := m1; wfile := f2; wpend := wpend w |}, Done)
   | _, _, _ => (w, Refused)
@@ -320,15 +333,6 @@ Fixpoint rm_ws_done (t : tree) : list key * bool :=
                      if ok then let '(d', ok') := go r in (d ++ d', ok') else (d, false)
          end) l in
     if ok then ([k], true) else (dn, false).
-
-(* memory effect of a completed removal of x: its parent forgets it in its property groups, the subtree goes *)
-Definition scrub_attrs (c : key) (t : tree) : tree := let 'Node k a l := t in Node k (with_pgs a (scrub c (apgs a))) l.
-Definition forget (x : key) (m : tree) : tree :=
-  let m1 := match fst x, parent_of x m with
-            | KD, Some p => upd p (scrub_attrs x) m
-            | _, _ => m
-            end in
-  prune x m1.
 
 Definition do_remove_ws (w : ws) (e : key) : ws * outcome :=
   match find e (wmem w), parent_of e (wmem w) with
